@@ -368,7 +368,7 @@ func c05Sites(root *TNode) []c05Site {
 
 func c05Tier(tier string) int {
 	if tier == "thorough" {
-		return 400000
+		return 1000000
 	}
 	return 20000
 }
